@@ -38,7 +38,11 @@ KINDS = {
     "NoU": ["q"],
 }
 
-PTYPE = {"q": ParamType.QUBIT, "f": ParamType.FLOAT, "i": ParamType.INT}
+PTYPE = {"q": ParamType.QUBIT, "f": ParamType.FLOAT, "i": ParamType.INT, "r": ParamType.REGISTER}
+
+# gates with REGISTER parameters (no unitary: the emulator has no meaning for them; used by the
+# analyses only - a register argument uses every qubit of that register or alias)
+REG_KINDS = {"RG": ["r"], "RQ": ["q", "r"], "RR": ["r", "f", "r"]}
 
 
 def haar(rng, dim):
@@ -113,7 +117,7 @@ def unitary_fn(seed, name, kinds):
     return fn
 
 
-def make_gates(seed=0, idle=True, names=None):
+def make_gates(seed=0, idle=True, names=None, reg_gates=False):
     """A native gate set.  Returns dict name -> GateDefinition."""
     g = {}
     for name, kinds in KINDS.items():
@@ -127,6 +131,9 @@ def make_gates(seed=0, idle=True, names=None):
             g[name] = GateDefinition(name, params)
         else:
             g[name] = GateDefinition(name, params, ideal_unitary=unitary_fn(seed, name, kinds))
+    if reg_gates:
+        for name, kinds in REG_KINDS.items():
+            g[name] = GateDefinition(name, [Parameter(f"a{i}", PTYPE[k]) for i, k in enumerate(kinds)])
     if idle:
         g = add_idle_gates(g)
     return g
